@@ -86,15 +86,6 @@ void gen_case(std::vector<size_t> mult) {
         E.control("perturbed-basis-function", sym::eq(lib, ref + Real(1)));
       }
     }
-    // local support: the stored window lies inside [t_i, t_{i+p+1}]
-    const auto &sup = B[i].getSupport();
-    if (sup.containsIntervals()) {
-      stats().obligations++;
-      if ((int)sup.getStartIndex() >= cls[i] && (int)sup.getEndIndex() - 1 <= cls[i + p + 1])
-        stats().discharged++;
-      else
-        E.fail("local-support/B" + std::to_string(i), "structure", "support window exceeds [t_i, t_{i+p+1}]");
-    }
   }
   // partition of unity on every interval inside [t_p, t_{m-p-1}]
   if (B.size() > 0)
